@@ -287,6 +287,86 @@ let reuse_oracle sc kind mode elems obs =
     | _ -> Printf.sprintf "BE %s%s%s %d" ne ne ne n in
   obs = want
 
+(* ---- several containers alive at once: independent ranges ---- *)
+let mc_maxn = 4
+let is_ad c = c = 'r' || c = 'e'
+let mc_valid sc kind mode n three =
+  (mode = "l" || mode = "o") &&
+  (match kind with
+   | "vec" | "list" | "fv" -> true
+   | "arr" -> n <= mc_maxn
+   | "carr" -> n >= 1 && n <= mc_maxn && mode = "l"
+   | _ -> false) &&
+  (if sc = "n3" then three
+   else if String.length sc = 4 && sc.[0] = 'n' then not three && is_ad sc.[1] && is_ad sc.[2] && (sc.[3] = '-' || (sc.[3] = 'w' && mode = "l"))
+   else if String.length sc = 5 && sc.[0] = 's' then not three && is_ad sc.[1] && is_ad sc.[2] && (sc.[3] = '1' || sc.[3] = '2') && (sc.[4] = '-' || (sc.[4] = 'w' && mode = "l"))
+   else false)
+let dotted s = if s = "" then "." else s
+let vis_r_plain l = String.concat "," (List.map string_of_int l)
+let vis_e_plain l = String.concat "," (List.map (fun (i, v) -> Printf.sprintf "%d:%d" (int_of_nat i) v) l)
+(* a whole read-only loop over b, as the body of an outer loop sees it: b unchanged, the inner visits as text *)
+let inner_of ad (b : int list) : int list * string =
+  (b, if ad = 'r' then inner_str vis_r_plain (reverse_rvalue b) else inner_str vis_e_plain (enumerate_rvalue b))
+let mc_model sc kind mode (es : int list list) =
+  let three = List.length es = 3 in
+  let n = List.length (List.hd es) in
+  if List.exists (fun e -> List.length e <> n) es || not (mc_valid sc kind mode n three) then "BADCASE" else
+  let a = List.nth es 0 and b = List.nth es 1 in
+  if sc = "n3" then begin
+    let c = List.nth es 2 in
+    let inner_b (b : int list) : int list * string =
+      match reverse_for2 (inner_of 'r') (fun v -> v) b c with
+      | Done ((vis, b'), _) -> (b', String.concat "+" (List.map (fun (y, zs) -> Printf.sprintf "%d{%s}" y zs) vis))
+      | OutOfFuel -> (b, "HANG") | BadDeref -> (b, "CRASH") in
+    out_str (fun ((vis, a'), b') ->
+        Printf.sprintf "N3 %s C %s %s %s" (dotted (String.concat "|" (List.map (fun (x, m) -> Printf.sprintf "%d=%s" x (dotted m)) vis)))
+          (wire_of_ints a') (wire_of_ints b') (wire_of_ints c))
+      (reverse_for2 inner_b (fun v -> v) a b)
+  end else if sc.[0] = 'n' then begin
+    let w = sc.[3] = 'w' in
+    if sc.[1] = 'r' then
+      out_str (fun ((vis, a'), b') ->
+          Printf.sprintf "N2 %s C %s %s" (dotted (String.concat "|" (List.map (fun (x, i) -> Printf.sprintf "%d=%s" x (dotted i)) vis))) (wire_of_ints a') (wire_of_ints b'))
+        (reverse_for2 (inner_of sc.[2]) (if w then fr else (fun v -> v)) a b)
+    else
+      out_str (fun ((vis, a'), b') ->
+          Printf.sprintf "N2 %s C %s %s" (dotted (String.concat "|" (List.map (fun ((k, x), i) -> Printf.sprintf "%d:%d=%s" (int_of_nat k) x (dotted i)) vis))) (wire_of_ints a') (wire_of_ints b'))
+        (enumerate_for2 (inner_of sc.[2]) (if w then fe else (fun _ v -> v)) a b)
+  end else begin
+    (* two stored adaptors: two independent loops, run in the given order; the first one run may write *)
+    let w = sc.[4] = 'w' in
+    let run ad wr l = if ad = 'r' then (match reverse_for (if wr then fr else (fun v -> v)) l with Done (vs, l') -> (vis_r_plain vs, l') | _ -> ("HANG", l))
+                      else (match enumerate_for (if wr then fe else (fun _ v -> v)) l with Done (vs, l') -> (vis_e_plain vs, l') | _ -> ("HANG", l)) in
+    let (va, a'), (vb, b') =
+      if sc.[3] = '1' then (let ra = run sc.[1] w a in let rb = run sc.[2] false b in (ra, rb))
+      else (let rb = run sc.[2] w b in let ra = run sc.[1] false a in (ra, rb)) in
+    Printf.sprintf "S2 %s %s C %s %s" (dotted va) (dotted vb) (wire_of_ints a') (wire_of_ints b')
+  end
+(* SPEC: each loop visits its own range (rev / combine (seq 0 n)); only the written range changes, pointwise *)
+let mc_oracle sc kind mode es obs =
+  let three = List.length es = 3 in
+  let n = List.length (List.hd es) in
+  if List.exists (fun e -> List.length e <> n) es || not (mc_valid sc kind mode n three) then obs = "BADCASE" else
+  let a = List.nth es 0 and b = List.nth es 1 in
+  let vis ad l = if ad = 'r' then vis_r_plain (List.rev l) else vis_e_plain (spec_enumerate l) in
+  let items ad l = if ad = 'r' then List.map string_of_int (List.rev l) else List.map (fun (i, v) -> Printf.sprintf "%d:%d" (int_of_nat i) v) (spec_enumerate l) in
+  let written ad l = if ad = 'r' then List.map fr l else spec_enumerate_write fe l in
+  let want =
+    if sc = "n3" then begin
+      let c = List.nth es 2 in
+      let mid = String.concat "+" (List.map (fun y -> Printf.sprintf "%s{%s}" y (vis 'r' c)) (items 'r' b)) in
+      Printf.sprintf "N3 %s C %s %s %s" (dotted (String.concat "|" (List.map (fun x -> x ^ "=" ^ dotted mid) (items 'r' a))))
+        (wire_of_ints a) (wire_of_ints b) (wire_of_ints c)
+    end else if sc.[0] = 'n' then
+      Printf.sprintf "N2 %s C %s %s" (dotted (String.concat "|" (List.map (fun x -> x ^ "=" ^ dotted (vis sc.[2] b)) (items sc.[1] a))))
+        (wire_of_ints (if sc.[3] = 'w' then written sc.[1] a else a)) (wire_of_ints b)
+    else begin
+      let w = sc.[4] = 'w' in
+      let a' = if w && sc.[3] = '1' then written sc.[1] a else a and b' = if w && sc.[3] = '2' then written sc.[2] b else b in
+      Printf.sprintf "S2 %s %s C %s %s" (dotted (vis sc.[1] a)) (dotted (vis sc.[2] b)) (wire_of_ints a') (wire_of_ints b')
+    end in
+  obs = want
+
 (* ------------------------------------------------------------------ dispatch *)
 let model (w : string list) : string =
   try
@@ -318,6 +398,7 @@ let model (w : string list) : string =
         (match x with VPtr _ -> Printf.sprintf "A 1 %s %s" (hex_of_n (mhash x)) (hex_of_n (mhash x)) | _ -> "BADCASE")
     | [("en" | "rv") as a; kind; mode; elems] -> iter_model (a = "en") kind mode (ints_of_wire elems)
     | ["re"; sc; kind; mode; elems] -> reuse_model sc kind mode (ints_of_wire elems)
+    | "mc" :: sc :: kind :: mode :: (([_; _] | [_; _; _]) as es) -> mc_model sc kind mode (List.map ints_of_wire es)
     | _ -> "BADCASE"
   with Bad | Invalid_argument _ | Failure _ | Not_found -> "BADCASE"
 
@@ -352,6 +433,7 @@ let oracle (w : string list) (obs : string) : bool =
   | ["a"; "SQ"; _], ["A"; e; hx; hy] -> e = "1" && hx = hy
   | [("en" | "rv") as a; kind; mode; elems], _ -> iter_oracle (a = "en") kind mode (ints_of_wire elems) obs
   | ["re"; sc; kind; mode; elems], _ -> reuse_oracle sc kind mode (ints_of_wire elems) obs
+  | "mc" :: sc :: kind :: mode :: (([_; _] | [_; _; _]) as es), _ -> mc_oracle sc kind mode (List.map ints_of_wire es) obs
   | _ -> false
 
 let () = run_driver model oracle
